@@ -235,6 +235,110 @@ sys.exit(1 if any({needle!r} in b for b in bad) or ({needle!r} == "" and bad) el
 '''
 
 
+# ------------------------------------------------------------------------------------------ torsion table (concretising mode)
+_T = {}
+
+
+def _table_ctx():
+    """the test structure read once through both reader generations"""
+    if _T:
+        return _T
+    import logging
+    import os
+    logging.disable(logging.CRITICAL)
+    from rnapolis.parser import read_3d_structure
+    from rnapolis.parser_v2 import parse_cif_atoms
+    from vlib.core import REPO
+    path = os.path.join(REPO, "tests", "1ehz-assembly-1.cif")
+    with open(path) as f:
+        s3 = read_3d_structure(f)
+    with open(path) as f:
+        df = parse_cif_atoms(f)
+    _T["res"] = [r for r in s3.residues if r.is_nucleotide]
+    _T["df"] = df
+    return _T
+
+
+def _dihedral(p):
+    """IUPAC dihedral, written independently of the library"""
+    import numpy as np
+    b1, b2, b3 = p[1] - p[0], p[2] - p[1], p[3] - p[2]
+    n1, n2 = np.cross(b1, b2), np.cross(b2, b3)
+    return float(np.arctan2(np.dot(np.cross(n1, n2), b2 / np.linalg.norm(b2)), np.dot(n1, n2)))
+
+
+def body_table(start, length):
+    """tertiary_v2.Structure.torsion_angles on the window of residues [start, start+length) of 1EHZ (which contains modified residues) against
+    an independent IUPAC dihedral on the atoms the definitions name; the table carries the negated value (recorded finding) or nothing"""
+    import math
+    import numpy as np
+    from harness.e1_common import log, known_keys
+    from rnapolis.tertiary_v2 import Structure
+    ctx = _table_ctx()
+    res = ctx["res"][start:start + length]
+    keys = {(r.auth.chain, str(r.auth.number)) for r in res}
+    df = ctx["df"]
+    sub = df[[(str(c), str(n)) in keys for c, n in zip(df["auth_asym_id"], df["auth_seq_id"])]].copy()
+    sub.attrs["format"] = "mmCIF"
+    problems = []
+    try:
+        table = Structure(sub).torsion_angles
+    except Exception as e:  # noqa: BLE001
+        table = None
+        problems.append(f"exception {type(e).__name__}: {e}")
+    DEF = {"alpha": [("O3'", -1), ("P", 0), ("O5'", 0), ("C5'", 0)], "beta": [("P", 0), ("O5'", 0), ("C5'", 0), ("C4'", 0)],
+           "gamma": [("O5'", 0), ("C5'", 0), ("C4'", 0), ("C3'", 0)], "delta": [("C5'", 0), ("C4'", 0), ("C3'", 0), ("O3'", 0)],
+           "epsilon": [("C4'", 0), ("C3'", 0), ("O3'", 0), ("P", 1)], "zeta": [("C3'", 0), ("O3'", 0), ("P", 1), ("O5'", 1)]}
+    if table is not None:
+        rows = {(str(r["chain_id"]), int(r["residue_number"])): r for _, r in table.iterrows()}
+        for i, r in enumerate(res):
+            row = rows.get((r.auth.chain, r.auth.number))
+            if row is None:
+                if length > 1:
+                    problems.append(f"residue {r.full_name} has no row in the torsion table")
+                continue
+            for name, d in DEF.items():
+                pts = []
+                for an, off in d:
+                    j = i + off
+                    a = res[j].find_atom(an) if 0 <= j < len(res) else None
+                    pts.append(None if a is None else a.coordinates)
+                got = row[name]
+                has = got is not None and not (isinstance(got, float) and math.isnan(got))
+                if any(p is None for p in pts):
+                    if has:
+                        problems.append(f"{r.full_name} {name} = {got} although an atom / neighbour it needs does not exist")
+                elif has and abs(math.atan2(math.sin(float(got) + _dihedral(pts)), math.cos(float(got) + _dihedral(pts)))) > 1e-6:
+                    problems.append(f"{r.full_name} {name} = {math.degrees(float(got)):.2f} deg, IUPAC dihedral of the named atoms is {math.degrees(_dihedral(pts)):.2f} (table carries its negation)")
+            got = row["chi"]
+            has = got is not None and not (isinstance(got, float) and math.isnan(got))
+            if has:
+                purine = r.find_atom("N9") is not None
+                names = ("O4'", "C1'", "N9", "C4") if purine else ("O4'", "C1'", "N1", "C2")
+                ats = [r.find_atom(n) for n in names]
+                if any(a is None for a in ats):
+                    problems.append(f"{r.full_name} chi = {got} although its atoms are missing")
+                else:
+                    ref = _dihedral([a.coordinates for a in ats])
+                    if abs(math.atan2(math.sin(float(got) + ref), math.cos(float(got) + ref))) > 1e-6:
+                        problems.append(f"{r.full_name} chi = {math.degrees(float(got)):.2f} deg, glycosidic dihedral {'O4-C1-N9-C4' if purine else 'O4-C1-N1-C2'} is "
+                                        f"{math.degrees(ref):.2f} (table carries its negation)")
+    keys_ = ["tertiary_v2.Structure.torsion_angles"] if problems else []
+    ok = all(k in known_keys(PID) for k in keys_)
+    log({"p": [start, length], "problems": problems[:3], "keys": keys_, "kind": "table"})
+    return ok
+
+
+def replay(rec):
+    import harness.e1_common as ec
+    saved = ec.known_keys
+    ec.known_keys = lambda pid: set()
+    try:
+        return body_table(rec["p"][0], rec["p"][1])
+    finally:
+        ec.known_keys = saved
+
+
 def run(rep, tier):
     from vlib.core import Violation, ncpu
     frames_main = ["xyz"] if tier == "quick" else list(FRAMES)
@@ -274,6 +378,19 @@ def run(rep, tier):
                 rep.add(undecided=1)
                 rep.notes.append(f"{r['name']}: {v['obligation']}: {v['verdict']}")
         rep.sample({"group": r["name"], "verdicts": [(v["obligation"], v["verdict"]) for v in r["verdicts"]][:4]})
+    # torsion table of the second implementation on every residue window of a real structure (concretising mode)
+    import z3
+    from vlib import allsat, e1
+    nres = 76
+    S, Ln = z3.Int("start"), z3.Int("length")
+    lens = (3,) if tier == "quick" else (2, 3, 4)
+    models, nq, dt = allsat.allsat([S, Ln], [S >= 0, z3.Or([Ln == k for k in lens]), S + Ln <= nres])
+    rep.add(transitions=nq, solver_s=dt)
+    pt = allsat.run_family("torsion_table_windows", "harness.c18", "body_table", [tuple(m) for m in models],
+                           [f"every window of {list(lens)} consecutive nucleotides of tests/1ehz-assembly-1.cif (contains modified residues)",
+                            "tertiary_v2.Structure.torsion_angles vs an independent IUPAC dihedral"], expected=len(models), chunksize=4)
+    e1.collect(rep, [pt], "harness.c18")
+    rep.add(functions_encoded=["tertiary_v2.Structure.torsion_angles / connected_residues (real pandas, concretising mode)"])
     rep.add(functions_encoded=["tertiary.calculate_torsion_angle_coords", "tertiary.torsion_angle", "tertiary_v2.calculate_torsion_angle",
                                "Residue3D.chi", "Residue3D.chi_class", "Residue3D.find_atom"],
             bounds={"frames": frames_main, "free reals": "a,b,l,x,y,z (+ symbolic offset ox,oy,oz): a in [0.27,2.5], |b|<=2.5, l in [0.8,2.5], "
